@@ -29,7 +29,8 @@ RULE = ("A case is a history over one fake node reached through the real Session
 ASSUMPTIONS = ["network, clock, executor and event loop are simulated (sim/); Cluster, Session, pools, connections, "
                "ResponseFuture, heartbeat, policies are the real classes",
                "close() is the simulated reactor's close(), a copy of what all six real reactors do (set is_closed under "
-               "the lock; if not defunct: error_all_requests(ConnectionShutdown), connected_event.set()); like them it "
+               "the lock; if not defunct: error_all_cp_sessions + error_all_requests(ConnectionShutdown), connected_event.set() "
+               "-- a mutation of close() in cassandra/io/*reactor.py is therefore not visible to this check); like them it "
                "stops reading once closed, so bytes that arrive after the failure are never parsed -- late delivery is "
                "exercised by bytes that follow the failing frame in the same read",
                "send_msg/close/new_continuous_paging_session of the connection class are wrapped for observation only",
